@@ -6,6 +6,8 @@ Copyright 2020 William W. Kimball, Jr. MBA MSIS
 import re
 from typing import Any, List
 
+from ruamel.yaml.scalarbool import ScalarBoolean
+
 from yamlpath.enums import (
     AnchorMatches,
     PathSearchMethods,
@@ -38,6 +40,9 @@ class Searches:
         Returns:  (bool) True = comparision passes; False = comparison fails.
         """
         typed_haystack = Nodes.typed_value(haystack)
+        if isinstance(typed_haystack, ScalarBoolean):
+            # ruamel.yaml wraps Anchored Booleans as ScalarBoolean, an int
+            typed_haystack = bool(typed_haystack)
         # The text of a String value is that String; not the text of
         # whatever Python literal it may happen to spell, like "0x10" or "+5".
         text_haystack = (str(haystack)
